@@ -212,4 +212,5 @@ def run(ctx):
             E = matvec(Mx, v) + [C(0)] * (b - s)
             vec_eq(ctx, key, p.ret, E, 'alg=: embedding a smaller matrix and vector commutes with multiplication', w)
     ctx.floor('roots analysed', done, len(roots))
+    ctx.floor('API uses generated (counted at implementation time)', len(roots), 962)
     ctx.floor('shuffle masks', sum(1 for r in roots if meta[r.name]['kind'] in ('shuf1', 'shuf2')), 600)
